@@ -105,7 +105,7 @@ def rename_refs(sc, old, new):
 
 MUTATIONS = ["drop_state_field", "drop_scope_field", "rename_state", "retarget", "retag", "wrong_type", "dup_names",
              "empty_object", "empty_branches", "drop_state", "junk_member", "end_false", "catcher", "timestamp", "two",
-             "numeric_field", "dangling_all", "empty_startat", "cross_scope_ref"]
+             "numeric_field", "dangling_all", "empty_startat", "cross_scope_ref", "template_value"]
 
 
 def mutate(rng, m, op=None):
@@ -275,6 +275,13 @@ def mutate(rng, m, op=None):
         else:
             st["Next"] = "Nowhere"
             st.pop("End", None)
+    elif op == "template_value":
+        # a payload template member whose name ends in ".$" with a value of any JSON type, or a string that is neither a
+        # path nor an intrinsic call (the validator looks into Parameters / ItemSelector / ResultSelector)
+        if isinstance(st, dict):
+            val = rng.choice(JUNK + ["garbage", "$.x", "States.Array(1)", "States.Nope(1)", ""])
+            tmpl = {"a.$": val} if rng.random() < 0.6 else {"n": {"b.$": val}, "l": [{"c.$": val}]}
+            st[rng.choice(["Parameters", "ResultSelector", "ItemSelector"])] = tmpl
     elif op == "junk_member":
         sts[rng.choice(["J", "", name + "j"])] = rng.choice(JUNK)
     elif op == "end_false":
